@@ -194,4 +194,35 @@ PROPS = {
         ],
         "timeout": {"quick": 300, "thorough": 3000},
     },
+    "C12": {
+        "suites": ["c12"],
+        "assumptions": COMMON_ASSUME + [
+            "the thrift encodings are those of Tally/Model/Thrift.lean (C16: byte-for-byte differential against the generated client); sizes in the spec are measured with that codec on the received bytes",
+            "a metric's charge is fixed at allocation and value-independent, so 'charged >= bytes with the worst value of its kind' per metric + 'reserved overhead >= everything that is not a metric' + 'charges of a batch <= freeBytes' are judged per datagram; together they imply the bound for every batch composition (theorem datagram_le_max)",
+            "MaxPacketSizeBytes is generated up to thriftudp.MaxLength = 65000 (larger limits are C15's domain); every single metric generated fits on its own except in the sessions just above the constructor's minimum, where the property's proviso applies",
+            "process() is the only consumer of the queue: the charge / flush hooks give the charges in exactly the order the metrics enter batches",
+        ],
+        "trusted_base": [
+            "loopback UDP sinks (net.ListenUDP, 4 MiB receive buffer): a datagram missing by sequence number is reported as a machinery failure (udp-loss), never as a pass or a violation",
+            "verif-tagged shims m3.VerifFreeBytes / VerifOverheadBytes and the YieldInt hooks m3.process.charge / m3.process.flush",
+        ],
+        "timeout": {"quick": 300, "thorough": 3000},
+    },
+    "C13": {
+        "suites": ["c13"],
+        "assumptions": COMMON_ASSUME + [
+            "a concurrent history is represented by the order in which its sends on metCh, its tag-cache accesses and its clock stores took effect (the queue totally orders the sends; cache and interner are lock protected and monotone); the bounded queue only delays senders",
+            "the harness logs reports per producer goroutine; emitted metrics are matched to log entries by name and kind in per-producer order (names are distinct per producer), values / tags / timestamps of the matched pairs are then judged clause by clause; tally.internal.* telemetry sent by Flush is excluded from the matching",
+            "reports concurrent with Close may legitimately be dropped: Close is called after every producer has returned",
+            "wall clock: time.Now().UnixNano() read by the harness before the constructor and after each call brackets the reporter's clock cell (same clock source, monotone in the sandbox); timestamp-monotone additionally assumes the cell never goes back",
+            "bucket bounds are finite and contain one spelling of zero (sort.Sort is not stable; NaN bounds are C03's excluded domain); fmt %.Nf and Duration.String are the Lean re-implementations of C18",
+            "a Go map is an association list with distinct keys enumerated in arbitrary order; the model is given the observed enumeration order of every tag map and the observed clock values as inputs",
+        ],
+        "trusted_base": [
+            "loopback UDP sinks (net.ListenUDP, 4 MiB receive buffer): a datagram missing by sequence number is reported as a machinery failure (udp-loss), never as a pass or a violation",
+            "the tag-map hash is internal (internal/identity): the harness re-implements its formula (murmur3 of key=value, seed 23, fold 31; constants tied by facts) only to confirm that maps built to collide really do when a wrong-tags violation is classified; tags_intact holds for every hash function",
+            "the YieldInt hooks m3.process.charge / m3.process.flush (number of emitted batches, used to tell UDP loss from delivery)",
+        ],
+        "timeout": {"quick": 300, "thorough": 3000},
+    },
 }
